@@ -22,6 +22,8 @@ DECIDED_R6 = ('Round 6: per-position comparison term is 0 for equal bytes and po
 DECIDED = DECIDED + ' ' + DECIDED_R6
 DECIDED_R7 = ('Round 7: the authenticated message is the unaltered piece from the split; writer and reader agree on when a cookie is signed; get_cookie only reads the jar.')
 DECIDED = DECIDED + ' ' + DECIDED_R7
+DECIDED_R8 = ('Round 8: every return of headerlist lies behind the cookie emission; the per-thread response is reset only before hooks and handler run; premise C09.c (apply() does not write the applied response); a difference count with abs(len(a) - len(b)) is length-aware.')
+DECIDED = DECIDED + ' ' + DECIDED_R8
 NOT_DECIDED = ('round trip of plain cookie text through http.cookies.SimpleCookie quoting (library value semantics); '
                'strength of HMAC-MD5 (assumed unforgeable without the secret).')
 ASSUMPTIONS = ['HMAC is unforgeable without the secret', 'base64.b64encode is canonical (one text per byte string)']
@@ -473,6 +475,22 @@ def check_get_cookie(P, R):
     g, rd = f.cfg, f.rd
     key_p, default_p, secret_p = f.params[1], f.params[2], f.params[3]
     calls = [c for c in walk_shallow(f.node) if isinstance(c, ast.Call) and dotted(c.func) == 'cookie_decode']
+    if not calls:
+        # a memoising wrapper between get_cookie and the decoder hands one unpickled object to every request that returns the same cookie
+        for c in walk_shallow(f.node):
+            if isinstance(c, ast.Call) and isinstance(c.func, ast.Name):
+                r_ = P.resolve_name(f.module, c.func.id)
+                if r_ and r_[0] == 'func':
+                    hf = r_[1]
+                    memo = [d for d in hf.node.decorator_list if (dotted(d.func if isinstance(d, ast.Call) else d) or '').split('.')[-1] in ('lru_cache', 'cache', 'cached', 'memoize')]
+                    reaches = any(isinstance(x, ast.Call) and (dotted(x.func) or '').split('.')[-1] in ('cookie_decode', 'loads') for x in ast.walk(hf.node))
+                    if memo and reaches:
+                        R.ob('C15.e', hf, memo[0], False, text=f'`{hf.name}` (between get_cookie and the decoder) is not memoised', detail=
+                             f'`@{short(memo[0])}` on `{hf.name}` keeps the decoded value of a signed cookie for the life of the process: the unpickled object is built once and handed '
+                             f'to every later request (on every thread) that returns the same cookie - after one handler changes the dict or list it read, the next request reads '
+                             f'the changed value, not the value that was set',
+                             why='a cookie set on a response is read back unchanged from the request that returns it', key_extra='decode-memoised')
+                        return
     R.require(calls, 'get_cookie does not call cookie_decode')
     for c in calls:
         cn = g.node_of_stmt(c)[0]
@@ -657,6 +675,36 @@ def check_env_store_emits(P, R, rid, why, consequence):
              f'after `{short(n.ast)}` the change event is not emitted on every path (e.g. only for keys that were already present): values derived earlier from the '
              f'environ - {consequence}',
              why=why, key_extra='emit-after-store')
+    check_env_delete_emits(P, R, rid, why, consequence)
+
+
+def check_env_delete_emits(P, R, rid, why, consequence):
+    """removing an environ key through the request is a change as well: the deletion is announced - through a store made with `self[key] = ..` (which emits) in
+    front of it, or an emit of its own"""
+    cls_ = P.cls('ombott.request_pkg.request:BaseRequest')
+    n_ = 0
+    for mname, m in sorted(cls_.methods.items()):
+        g = m.cfg
+        for st in walk_shallow(m.node):
+            hit = None
+            if isinstance(st, ast.Delete) and any(isinstance(t, ast.Subscript) and dotted(t.value) in ('self.environ', 'env') and isinstance(t.slice, ast.Name) for t in st.targets):
+                hit = st
+            elif isinstance(st, ast.Call) and call_attr(st) == 'pop' and dotted(st.func.value) == 'self.environ' and st.args and isinstance(st.args[0], ast.Name) \
+                    and st.args[0].id in m.params:
+                hit = st
+            if hit is None or mname == '_on_env_changed':
+                continue
+            n_ += 1
+            hn = g.node_of_stmt(hit)[0]
+            announces = [g.node_of_stmt(x)[0] for x in walk_shallow(m.node) if
+                         (isinstance(x, ast.Assign) and any(isinstance(t, ast.Subscript) and isinstance(t.value, ast.Name) and t.value.id == m.params[0] for t in x.targets)) or
+                         (isinstance(x, ast.Call) and call_attr(x) == 'emit' and x.args and is_const(x.args[0], 'env_changed')) or
+                         (isinstance(x, ast.Call) and call_attr(x) == '__setitem__' and isinstance(x.func.value, ast.Name) and x.func.value.id == m.params[0])]
+            ok = bool(announces) and (g.must_pass(g.entry, hn, announces) or all(s_ in announces or g.must_pass(s_, g.exit, announces) for (s_, lab) in hn.succ if lab != 'exc'))
+            R.ob(rid, m, hit, ok, text=f'`{short(hit)}` in {mname}: the removal is announced to the change listeners', detail='' if ok else
+                 f'`{short(hit)}` removes the key without any change event: values derived earlier from the environ - {consequence}',
+                 why=why, key_extra='emit-with-delete')
+    return n_
 
 
 def check_cookie_memo_invalidation(P, R, rid, why='a cookie is read back from the request that returns it: the parsed jar follows the Cookie header of the request'):
